@@ -105,11 +105,17 @@ def run(ctx):
                 for k, v in zip(n.keys, n.values):
                     if isinstance(k, ast.Constant) and k.value == "constraints" and isinstance(v, ast.Dict):
                         written.update(x.value for x in v.keys if isinstance(x, ast.Constant))
+        # the local holding the parameter entry: second element of the returned pair, whatever it is called
+        ent = None
+        for n in iter_own(cc2p.node):
+            if isinstance(n, ast.Return) and isinstance(n.value, ast.Tuple) and len(n.value.elts) == 2 and isinstance(n.value.elts[1], ast.Name):
+                ent = n.value.elts[1].id
+        ctx.need(ent is not None, "column_call_to_param no longer returns (name, <entry local>)")
         handled = set()
         for n in iter_own(cc2p.node):
-            if isinstance(n, ast.Compare) and isinstance(n.ops[0], ast.In) and isinstance(n.left, ast.Constant) and norm(n.comparators[0]) == "_param":
+            if isinstance(n, ast.Compare) and isinstance(n.ops[0], ast.In) and isinstance(n.left, ast.Constant) and norm(n.comparators[0]) == ent:
                 handled.add(n.left.value)
-            if isinstance(n, ast.Call) and isinstance(n.func, ast.Attribute) and n.func.attr in ("pop", "get") and norm(n.func.value) == "_param" and n.args and isinstance(n.args[0], ast.Constant):
+            if isinstance(n, ast.Call) and isinstance(n.func, ast.Attribute) and n.func.attr in ("pop", "get") and norm(n.func.value) == ent and n.args and isinstance(n.args[0], ast.Constant):
                 handled.add(n.args[0].value)
             if isinstance(n, ast.Tuple):
                 for e in n.elts:
@@ -126,13 +132,14 @@ def run(ctx):
             # folded = read AND removed (popped / deleted) so that it does not stay as a stray key
             loop_longnames = set()
             for n in iter_own(cc2p.node):
-                if isinstance(n, ast.For) and any(isinstance(d, ast.Delete) and any(norm(t) == "_param[longname]" for t in d.targets) for b2 in n.body for d in ast.walk(b2)):
+                lv = n.target.elts[1].id if isinstance(n, ast.For) and isinstance(n.target, ast.Tuple) and len(n.target.elts) == 2 and isinstance(n.target.elts[1], ast.Name) else None
+                if lv is not None and any(isinstance(d, ast.Delete) and any(norm(t) == "{}[{}]".format(ent, lv) for t in d.targets) for b2 in n.body for d in ast.walk(b2)):
                     for e in ast.walk(n.iter):
                         if isinstance(e, ast.Tuple) and len(e.elts) == 2 and isinstance(e.elts[1], ast.Constant):
                             loop_longnames.add(e.elts[1].value)
             removed = k in loop_longnames or any(
-                (isinstance(n, ast.Call) and isinstance(n.func, ast.Attribute) and n.func.attr == "pop" and norm(n.func.value) == "_param" and n.args and isinstance(n.args[0], ast.Constant) and n.args[0].value == k)
-                or (isinstance(n, ast.Delete) and any(norm(t) == "_param[{!r}]".format(k) for t in n.targets))
+                (isinstance(n, ast.Call) and isinstance(n.func, ast.Attribute) and n.func.attr == "pop" and norm(n.func.value) == ent and n.args and isinstance(n.args[0], ast.Constant) and n.args[0].value == k)
+                or (isinstance(n, ast.Delete) and any(norm(t) == "{}[{!r}]".format(ent, k) for t in n.targets))
                 for n in iter_own(cc2p.node)
             )
             ok = k in handled and removed
